@@ -556,3 +556,29 @@ def nat_observers_behind_a_pair(h):
                 h.check(fired == [1], 'dataflows/processors/load.py::load.process_resources', cfg, 'finalizer called exactly once', fired)
             finally:
                 shutil.rmtree(d, ignore_errors=True)
+
+
+
+def nat_stats_of_several_dumpers(h):
+    """bounded: several dumpers in one flow (a raw dump, a filter, a final dump): what process() / results() return as stats are the
+    numbers of the LAST dump (later steps win when stats are merged), and they agree with that dump's written descriptor"""
+    import json
+    from dataflows import Flow, dump_to_path, filter_rows
+    for n in (3, 8):
+        d = tempfile.mkdtemp(prefix='c09s_')
+        try:
+            rows = [{'i': i, 't': 'row %d' % i} for i in range(n)]
+            for api in ('process', 'results'):
+                a, b = os.path.join(d, api + '_raw'), os.path.join(d, api + '_final')
+                f = Flow([dict(r) for r in rows], dump_to_path(a), filter_rows(lambda r: r['i'] % 2 == 0), dump_to_path(b))
+                got = h.run(lambda: f.process() if api == 'process' else f.results())
+                if not h.check(got[0] == 'ok', 'dataflows/base/datastream.py::DataStream.merge_stats', (n, api), 'runs', got[:2]):
+                    continue
+                stats = got[1][-1]
+                last = json.load(open(os.path.join(b, 'datapackage.json')))
+                first = json.load(open(os.path.join(a, 'datapackage.json')))
+                h.check(stats.get('count_of_rows') == last['count_of_rows'] == (n + 1) // 2 and first['count_of_rows'] == n and
+                        stats.get('hash') == last['hash'], 'dataflows/base/datastream.py::DataStream.merge_stats', (n, api),
+                        dict(count_of_rows=last['count_of_rows'], hash=last['hash']), dict(stats))
+        finally:
+            shutil.rmtree(d, ignore_errors=True)
